@@ -485,7 +485,12 @@ func generate(rng *rand.Rand, steps int, profile string) ([]string, []string, ma
 				g.feat["replace-not-rw"] = true
 				break
 			}
-			switch rng.Intn(7) {
+			switch rng.Intn(8) {
+			case 7:
+				// a second Open of an attached replica (open, dirty after writes, or rebuilding)
+				g.do("open " + pn(rng))
+				g.do("meta")
+				g.feat["open-while-attached"] = true
 			case 0:
 				if len(ch) > 0 {
 					g.do("mark " + ch[len(ch)-1].name) // latest
